@@ -335,6 +335,11 @@ partial def loop (w : Nat) (h : IO.FS.Stream) (out : IO.FS.Stream) (s : Sys) : I
   else if l.startsWith "glue " then
     out.putStrLn (runGlue ((l.drop 5).toString.splitOn " "))
     loop w h out s
+  else if l.startsWith "logunwind " then
+    -- the same as `log`: where the message was logged from does not matter
+    let (s', _) := s.step w (parseOp w ((("log " ++ (l.drop 10).toString).splitOn " ").filter (fun t => !t.isEmpty)))
+    out.putStrLn "ok"
+    loop w h out s'
   else if l == "panicinit" then
     out.putStrLn "ok"; loop w h out s
   else if l == "panicrecover" then
